@@ -10,7 +10,7 @@ pub fn scenario(tier: &str) -> (Market, Bounds) {
         name: "payments",
         specs,
         batches: vec![],
-        bases: if th { vec!["active-1", "active-2", "published-1"] } else { vec!["active-1", "published-1"] },
+        bases: if th { vec!["active-1", "active-2", "published-1", "published-2"] } else { vec!["active-1", "published-1", "published-2"] },
         publishes: 0,
         withdraws: 0,
         adds: 0,
